@@ -3374,6 +3374,13 @@ func (a *Association) createForwardTSN() *chunkForwardTSN {
 			break
 		}
 
+		// Only ordered messages have a stream sequence number to skip. An
+		// unordered chunk carries the SSN of the next ordered message, which
+		// has not been abandoned and must not be reported.
+		if c.unordered {
+			continue
+		}
+
 		ssn, ok := streamMap[c.streamIdentifier]
 		if !ok {
 			streamMap[c.streamIdentifier] = c.streamSequenceNumber
